@@ -33,6 +33,7 @@ package completion
 //@   ensures [current] result != nil ==> result.isCurrent && (old(result.isCurrent) || len(result.rows) > 0)
 //@   ensures [found] any(k, 0, len(e.groups), len(e.groups[k].rows) > 0) ==> result != nil
 //@   ensures [stable] any(k, 0, len(e.groups), old(e.groups[k].isCurrent)) ==> result != nil && allobj(x, "*group", x.isCurrent == old(x.isCurrent))
+//@   ensures [only-result-marked] allobj(x, "*group", x == result || x.isCurrent == old(x.isCurrent))
 //@   loop 1 invariant all(k, 0, rangeindex + 1, !e.groups[k].isCurrent)
 //@   loop 2 invariant allobj(x, "*group", x.isCurrent == old(x.isCurrent)) && all(k, 0, len(e.groups), !e.groups[k].isCurrent) && all(k, 0, rangeindex + 1, len(e.groups[k].rows) == 0)
 
@@ -66,7 +67,7 @@ package completion
 //@   requires evalid(e)
 //@   assigns *e.compLine, e.compCursor.pos, e.compCursor.mark, e.cursor.pos, e.cursor.mark, e.selected
 //@   ensures [restored] *e.compLine == *e.line && *e.line == old(*e.line)
-//@   ensures [cursor-restored] e.compCursor.pos == core.clampi(old(e.cursor.pos), len(*e.line))
+//@   ensures [cursor-restored] e.compCursor.pos == core.clampi(old(e.cursor.pos), len(*e.line)) && e.cursor.pos == old(e.cursor.pos)
 //@   ensures [no-candidate] len(e.selected.Value) == 0
 
 //@ func (*Engine).acceptCandidate
@@ -84,7 +85,7 @@ package completion
 //@   terminates
 //@   allow_alias Set(*e.line...) / Set(*e.compLine...) share backing arrays between the real and the completed line (pinned behaviour)
 //@   requires evalid(e)
-//@   ensures [interrupt-restores] inserted ==> *e.line == old(*e.line) && *e.compLine == *e.line && e.compCursor.pos == core.clampi(old(e.cursor.pos), len(*e.line)) && len(e.selected.Value) == 0
+//@   ensures [interrupt-restores] inserted ==> *e.line == old(*e.line) && *e.compLine == *e.line && e.compCursor.pos == core.clampi(old(e.cursor.pos), len(*e.line)) && e.cursor.pos == old(e.cursor.pos) && len(e.selected.Value) == 0
 //@   ensures [confirm] !inserted && old(len(e.selected.Value)) > 0 ==> *e.line == old(*e.compLine) && len(e.selected.Value) == 0
 //@   ensures [inactive-noop] !inserted && old(len(e.selected.Value)) == 0 ==> *e.line == old(*e.line) && *e.compLine == old(*e.compLine)
 
@@ -242,17 +243,34 @@ package completion
 // built by initCompletionsGrid has (gridok without the "at least one row" part: isearch can empty a group).
 //@ pred ginv(g *group) = g != nil && g.maxY == len(g.rows) && all(k, 0, len(g.rows), len(g.rows[k]) >= 1) && (g.aliased ==> g.maxX == len(g.columnsWidth) && all(k, 0, len(g.rows), len(g.rows[k]) <= len(g.columnsWidth))) && ((g.posX == -1 && g.posY == -1) || len(g.rows) == 0 || oncell(g))
 
+// Group cycling (C15: "cycles through every candidate exactly once" needs the selector to move to the *nearest*
+// non-empty group in the direction of travel, wrapping around).  Stated over indices: c0 is the group that was
+// current, c the one that is; going backwards, every group strictly between them (cyclically) is empty.
+//@ pred gdistinct(e *Engine) = all(i, 0, len(e.groups), all(j, 0, len(e.groups), i != j ==> e.groups[i] != e.groups[j]))
+//@ pred onecur(e *Engine) = any(k, 0, len(e.groups), e.groups[k].isCurrent) && all(i, 0, len(e.groups), all(j, 0, len(e.groups), e.groups[i].isCurrent && e.groups[j].isCurrent ==> i == j))
+//@ pred gcycle(e *Engine) = e != nil && all(k, 0, len(e.groups), e.groups[k] != nil) && any(k, 0, len(e.groups), len(e.groups[k].rows) > 0) && gdistinct(e) && onecur(e)
+
 //@ func (*Engine).cycleNextGroup
-//@   trusted recursion through currentGroup, not proved; terminates because some group has rows (its precondition)
-//@   requires e != nil && all(k, 0, len(e.groups), e.groups[k] != nil) && any(k, 0, len(e.groups), len(e.groups[k].rows) > 0)
+//@   props C15 C01
+//@   recursion_assumed each recursive call moves the current flag one group forward and some group has rows (precondition), so the recursion is bounded by the number of groups; that measure (cyclic distance to the nearest non-empty group) is not proved
+//@   requires gcycle(e)
 //@   assigns anyof("group", "isCurrent")
-//@   ensures any(k, 0, len(e.groups), e.groups[k].isCurrent) && all(k, 0, len(e.groups), e.groups[k].isCurrent ==> len(e.groups[k].rows) > 0)
+//@   ensures [one-current] onecur(e)
+//@   ensures [lands-on-rows] all(k, 0, len(e.groups), e.groups[k].isCurrent ==> len(e.groups[k].rows) > 0)
+//@   ensures [nearest-after] all(c0, 0, len(e.groups), all(c, 0, len(e.groups), old(e.groups[c0].isCurrent) && e.groups[c].isCurrent ==> (c > c0 ==> all(k, c0 + 1, c, len(e.groups[k].rows) == 0)) && (c <= c0 ==> all(k, c0 + 1, len(e.groups), len(e.groups[k].rows) == 0) && all(k, 0, c, len(e.groups[k].rows) == 0))))
+//@   loop 1 invariant allobj(x, "*group", x.isCurrent == old(x.isCurrent)) && all(k, 0, rangeindex + 1, !e.groups[k].isCurrent)
+//@   loop 2 invariant onecur(e) && all(c0, 0, len(e.groups), all(c, 0, len(e.groups), old(e.groups[c0].isCurrent) && e.groups[c].isCurrent ==> (c > c0 ==> all(k, c0 + 1, c, len(e.groups[k].rows) == 0)) && (c <= c0 ==> all(k, c0 + 1, len(e.groups), len(e.groups[k].rows) == 0) && all(k, 0, c, len(e.groups[k].rows) == 0))))
 
 //@ func (*Engine).cyclePreviousGroup
-//@   trusted recursion through currentGroup, not proved; terminates because some group has rows (its precondition)
-//@   requires e != nil && all(k, 0, len(e.groups), e.groups[k] != nil) && any(k, 0, len(e.groups), len(e.groups[k].rows) > 0)
+//@   props C15 C01
+//@   recursion_assumed as cycleNextGroup, backwards
+//@   requires gcycle(e)
 //@   assigns anyof("group", "isCurrent")
-//@   ensures any(k, 0, len(e.groups), e.groups[k].isCurrent) && all(k, 0, len(e.groups), e.groups[k].isCurrent ==> len(e.groups[k].rows) > 0)
+//@   ensures [one-current] onecur(e)
+//@   ensures [lands-on-rows] all(k, 0, len(e.groups), e.groups[k].isCurrent ==> len(e.groups[k].rows) > 0)
+//@   ensures [nearest-before] all(c0, 0, len(e.groups), all(c, 0, len(e.groups), old(e.groups[c0].isCurrent) && e.groups[c].isCurrent ==> (c < c0 ==> all(k, c + 1, c0, len(e.groups[k].rows) == 0)) && (c >= c0 ==> all(k, 0, c0, len(e.groups[k].rows) == 0) && all(k, c + 1, len(e.groups), len(e.groups[k].rows) == 0))))
+//@   loop 1 invariant allobj(x, "*group", x.isCurrent == old(x.isCurrent)) && all(k, 0, rangeindex + 1, !e.groups[k].isCurrent)
+//@   loop 2 invariant onecur(e) && all(c0, 0, len(e.groups), all(c, 0, len(e.groups), old(e.groups[c0].isCurrent) && e.groups[c].isCurrent ==> (c < c0 ==> all(k, c + 1, c0, len(e.groups[k].rows) == 0)) && (c >= c0 ==> all(k, 0, c0, len(e.groups[k].rows) == 0) && all(k, c + 1, len(e.groups), len(e.groups[k].rows) == 0))))
 
 //@ func (*Engine).refreshLine
 //@   trusted the insertion of the selected candidate is C14's subject (insertCandidate / acceptCandidate under their own hypotheses); here only that it is called
@@ -261,6 +279,7 @@ package completion
 //@ func (*Engine).Select
 //@   props C15 C01
 //@   requires evalid(e) && keymap.kmvalid(e.keymap) && all(k, 0, len(e.groups), ginv(e.groups[k]))
+//@   requires [groups-are-distinct-objects-at-most-one-current] gdistinct(e) && all(i, 0, len(e.groups), all(j, 0, len(e.groups), e.groups[i].isCurrent && e.groups[j].isCurrent ==> i == j))
 //@   requires [unit-step] (row == 0 || column == 0) && -1 <= row && row <= 1 && -1 <= column && column <= 1
 
 // ---------------------------------------------------------------------------------------
@@ -276,3 +295,22 @@ package completion
 //@   ensures [lands-on-a-cell] !result0 ==> oncell(g)
 //@   ensures [done-stays-in-range] result0 ==> 0 <= g.posY && g.posY < len(g.rows) && 0 <= g.posX
 //@   loop 1 invariant agridok(g) && 0 <= g.posY && g.posY < len(g.rows) && 0 <= g.posX
+
+// C14, second sentence: "Interrupting an active completion menu (Ctrl-C) only cancels the menu: the original
+// buffer and cursor are restored".  ResetForce is what abort (Ctrl-C) and Readline's start call.  Stated for
+// the completion menu proper: not the history auto-completion (autoForce) and not an incremental search
+// that replaces the line (isearchReplaceLine), whose own start buffer is what gets restored.
+//@ func (*Engine).resetValues
+//@   props C14
+//@   terminates
+//@   requires e != nil && all(k, 0, len(e.groups), e.groups[k] != nil)
+//@   assigns e.selected, e.usedY, e.groups, e.cached, anyof("group", "isCurrent")
+//@   ensures [nothing-selected] len(e.selected.Value) == 0
+//@   ensures comps ==> len(e.groups) == 0
+//@   ensures !comps ==> e.groups == old(e.groups)
+//@   loop 1 invariant e.groups == old(e.groups) || comps
+//@ func (*Engine).ResetForce
+//@   props C14
+//@   requires evalid(e) && keymap.kmvalid(e.keymap) && e.hint != nil && !e.autoForce && !e.isearchReplaceLine && e.isearchModeExit == "" && all(k, 0, len(e.groups), e.groups[k] != nil)
+//@   ensures [interrupt-restores-buffer] *e.line == old(*e.line) && e.cursor.pos == old(e.cursor.pos)
+//@   ensures [menu-cancelled] len(e.selected.Value) == 0 && e.keymap.local == ""
